@@ -1052,24 +1052,30 @@ def violation(eng, res, cfg, xs, totals, hyps, obj, label, key):
                                              x * symx.q(cn + 0.5) >= symx.q(0.5 * t))))
     for b in bounds:
         extra = list(hyps) + ([] if b is None else [obj <= symx.q(b)])
-        st, mm = eng.satisfiable(extra + intc + friendly, timeout_ms=30000)
-        if st != "sat":
-            st, mm = eng.satisfiable(extra + intc, timeout_ms=30000)
-        if st != "sat":
-            st, mm = eng.satisfiable(extra, timeout_ms=30000)
-        if st != "sat":
-            continue
-        tried += 1
-        rp = c02.make_replay(cfg, xs, totals, mm)
-        rp.update({"kind": "minor", "major": cfg["major"], "phase": cfg.get("phase"),
-                   "added": cfg.get("added"), "company": cfg.get("company")})
-        okk, msg = replay(rp)
-        res["stats"]["replays"] = res["stats"].get("replays", 0) + 1
-        if okk:
-            res["violations"].append({
-                "what": f"{cfg['gene']}/{cfg['genome']} major={cfg['major']}: {label}: {msg}",
-                "key": f"{key}:{cfg['gene']}", "replay": rp})
-            return True
+        block = []
+        # several evidence tables per bound: which table the solver happens to return
+        # decides whether the real optimum shows the deviation
+        for attempt in range(4):
+            st, mm = eng.satisfiable(extra + block + intc + friendly, timeout_ms=30000)
+            if st != "sat":
+                st, mm = eng.satisfiable(extra + block + intc, timeout_ms=30000)
+            if st != "sat" and not block:
+                st, mm = eng.satisfiable(extra, timeout_ms=30000)
+            if st != "sat":
+                break
+            tried += 1
+            rp = c02.make_replay(cfg, xs, totals, mm)
+            rp.update({"kind": "minor", "major": cfg["major"], "phase": cfg.get("phase"),
+                       "added": cfg.get("added"), "company": cfg.get("company")})
+            okk, msg = replay(rp)
+            res["stats"]["replays"] = res["stats"].get("replays", 0) + 1
+            if okk:
+                res["violations"].append({
+                    "what": f"{cfg['gene']}/{cfg['genome']} major={cfg['major']}: {label}: "
+                            f"{msg}", "key": f"{key}:{cfg['gene']}", "replay": rp})
+                return True
+            block.append(z3.Or([x != mm.eval(x, model_completion=True)
+                                for x in xs.values()]))
     res["inconclusive"].append(
         f"{cfg['gene']}/{cfg['genome']} major={cfg['major']}: '{label}' refuted "
         f"symbolically but {tried} concrete tables did not reproduce on the real code")
